@@ -183,6 +183,41 @@ Example C20_sub_owner_nonvacuous :
   no_trigger (init_state {[ 0%N := 1000; 1%N := 1000 ]}) (take 5 C20_witness).
 Proof. vm_compute. repeat split. Qed.
 
+(* "A sub-name expires with its parent": every sub-name's expiry height EQUALS its parent's.
+   Renewal sets the expiry of ALL committed sub-names (C20_renew_expiry, last clause, over the
+   whole sub-name range); as an invariant over histories it holds outside the same trigger region
+   (extended to renewals: the parent is renewed or purchased while a sub-name registered in this
+   block is not yet in the committed tree) and is refuted inside it by a closed witness. *)
+Theorem C20_sub_expiry_partial : forall s t,
+  trig_uncommitted s (t_op t) = false -> sub_expiry_eq_inv s -> sub_expiry_eq_inv (deliver s t).1.
+Proof. exact deliver_sub_expiry_inv. Qed.
+Print Assumptions C20_sub_expiry_partial.
+
+Theorem C20_sub_expiry_history_partial : forall evs b,
+  no_trigger_u (init_state b) evs -> sub_expiry_eq_inv (run (init_state b) evs).
+Proof. intros evs b. exact (history_sub_expiry_inv evs _ (init_sub_expiry_inv b)). Qed.
+Print Assumptions C20_sub_expiry_history_partial.
+
+Definition C20_witness_renew : list event :=
+  [ C20_tx 2 (Create 0%N (Some 0%N) ["n";"ol"] true "http://x.y" 100); EndBlock;
+    C20_tx 3 (Create 0%N (Some 0%N) ["b";"n";"ol"] true "http://x.y" 6); EndBlock;
+    C20_tx 4 (Create 0%N (Some 0%N) ["a";"n";"ol"] true "http://x.y" 6);
+    C20_tx 4 (Renew 0%N ["n";"ol"] 10); EndBlock ].
+
+Theorem C20_sub_expiry_refuted_1 :
+  let s0 := init_state {[ 0%N := 1000 ]} in
+  let s3 := run s0 (take 5 C20_witness_renew) in
+  let s := run s0 C20_witness_renew in
+  trig_uncommitted s3 (Renew 0%N ["n";"ol"] 10) = true /\
+  (d_expiry <$> reg s !! ["n";"ol"]) = Some 106 /\
+  (d_expiry <$> reg s !! ["b";"n";"ol"]) = Some 106 /\   (* committed sub-name: follows *)
+  (d_expiry <$> reg s !! ["a";"n";"ol"]) = Some 96.       (* registered in this block: left behind *)
+Proof. vm_compute. repeat split. Qed.
+
+Example C20_sub_expiry_nonvacuous :
+  no_trigger_u (init_state {[ 0%N := 1000 ]}) (take 5 C20_witness_renew).
+Proof. vm_compute. repeat split. Qed.
+
 (* non-vacuity: the hypotheses of (1) and (3) are satisfiable by successful, record-changing
    transactions (the paid purchase of the witness history: seller +20, buyer -30-fee) *)
 Example C20_nonvacuous :
